@@ -268,13 +268,6 @@ theorem pla_print (c : List Nat) (L : Nat) (S V : List Nat) (ht : LoopText c L S
 def stAtL (ch : List LoopRef) (stk : List (Frame R)) (acc : List (Tag R)) (o m : Nat) : PState R :=
   { storage := acc, stack := stk, loopChain := ch, isChild := false, off := o, mtch := m }
 
-/-- the fields `parse` records for the printed header at `L` -/
-def loopF (L lv : Nat) (S V : List Nat) : LoopFields :=
-  { off := L, level := lv, set := ⟨L + 11, S.length, 0, 0⟩, valueOff := 20 + S.length, valueLen := V.length,
-    contentOff := 22 + S.length + V.length }
-
-def loopRef (L lv : Nat) (S V : List Nat) : LoopRef := ⟨L + (20 + S.length), V.length, lv⟩
-
 theorem plainL_append {a b : List Nat} (ha : plainL a) (hb : plainL b) : plainL (a ++ b) := by
   intro x hx
   rcases List.mem_append.mp hx with h | h
@@ -287,87 +280,130 @@ theorem all_at (P : Nat → Prop) (pre mid post : List Nat) (hm : ∀ x ∈ mid,
   rw [get_mid pre mid post i h]
   exact List.getElem?_eq_getElem h
 
-theorem stepLoop_print (c pre S V rest : List Nat)
-    (hc : c = pre ++ (LH1 ++ (S ++ (LH2 ++ (V ++ (LH3 ++ rest))))))
-    (hn : c.length + 16 < 4294967296) (hS : plainL S) (hS34 : ∀ x ∈ S, x ≠ 34) (hV : plainL V)
-    (hV34 : ∀ x ∈ V, x ≠ 34) (hSgt : ∀ x ∈ S, x ≠ 62) (hVgt : ∀ x ∈ V, x ≠ 62) (hS236 : S.length < 236) (hV256 : V.length < 256)
-    (stk : List (Frame R)) (acc : List (Tag R)) (o1 m1 : Nat)
-    (hnext : next c (pre.length + 22 + S.length + V.length) = .ok (o1, m1)) :
+/-! ### any printed header -/
+
+/-- `<loop` -/
+def LOOPW : List Nat := [60, 108, 111, 111, 112]
+
+/-- `stepLoop` on a printed header `<loop` ++ `Hm` ++ `>` whose attribute scan gives `f0` -/
+theorem stepLoop_gen (c pre Hm rest : List Nat)
+    (hc : c = pre ++ (LOOPW ++ (Hm ++ ([62] ++ rest))))
+    (hn : c.length + 16 < 4294967296) (hHm : plainL Hm) (hgt : ∀ x ∈ Hm, x ≠ 62) (hlen : Hm.length + 6 < 65536)
+    (stk : List (Frame R)) (acc : List (Tag R)) (f0 : LoopFields)
+    (hpla : parseLoopAttributes c (pre.length + 5 + Hm.length) [] (pre.length + 5 + Hm.length + 2) (pre.length + 5) .none
+      ({ off := pre.length, level := trunc bits_LoopTag_Level stk.length } : LoopFields) = .ok f0)
+    (hoff0 : f0.off = pre.length)
+    (o1 m1 : Nat) (hnext : next c (pre.length + 6 + Hm.length) = .ok (o1, m1)) :
     stepLoop c (stAt stk acc (pre.length + 5) 7) =
-      .ok (stAtL [loopRef pre.length (trunc bits_LoopTag_Level stk.length) S V]
-        (.loop acc (loopF pre.length (trunc bits_LoopTag_Level stk.length) S V) [] :: stk) [] o1 m1) := by
-  have ht := loopText_of c pre S V rest hc
-  -- the finder skips the rest of the header
-  have hp1 : plainL [32, 115, 101, 116, 61, 34] := by
-    intro x hx; simp at hx; rcases hx with h | h | h | h | h | h <;> subst h <;> (unfold plainU; decide)
-  have hp2 : plainL LH2 := by
-    intro x hx; simp [LH2] at hx; rcases hx with h | h | h | h | h | h | h | h | h <;> subst h <;> (unfold plainU; decide)
-  have hp3 : plainL LH3 := by
-    intro x hx; simp [LH3] at hx; rcases hx with h | h <;> subst h <;> (unfold plainU; decide)
-  have hc5 : c = (pre ++ [60, 108, 111, 111, 112]) ++
-      (([32, 115, 101, 116, 61, 34] ++ (S ++ (LH2 ++ (V ++ LH3)))) ++ rest) := by
-    rw [hc]; simp [LH1, List.append_assoc]
-  have hrun := next_run c _ _ rest hc5
-    (plainL_append hp1 (plainL_append hS (plainL_append hp2 (plainL_append hV hp3))))
-  have hl5 : (pre ++ [60, 108, 111, 111, 112]).length = pre.length + 5 := by simp
-  have hlh : ([32, 115, 101, 116, 61, 34] ++ (S ++ (LH2 ++ (V ++ LH3)))).length = 17 + S.length + V.length := by
-    simp [LH2, LH3]; omega
-  rw [hl5, hlh, show pre.length + 5 + (17 + S.length + V.length) = pre.length + 22 + S.length + V.length by omega,
-    hnext] at hrun
-  have hle : pre.length + 22 + S.length + V.length ≤ c.length := by
-    rw [hc]; simp [LH1, LH2, LH3]; omega
+      .ok (stAtL [⟨f0.off + f0.valueOff, f0.valueLen, f0.level⟩]
+        (.loop acc { f0 with contentOff := 6 + Hm.length } [] :: stk) [] o1 m1) := by
+  have hp62 : plainL [62] := by intro x hx; simp at hx; subst hx; unfold plainU; decide
+  have hc5 : c = (pre ++ LOOPW) ++ ((Hm ++ [62]) ++ rest) := by
+    rw [hc]; simp [List.append_assoc]
+  have hrun := next_run c _ _ rest hc5 (plainL_append hHm hp62)
+  have hl5 : (pre ++ LOOPW).length = pre.length + 5 := by simp [LOOPW]
+  have hl62 : (Hm ++ [62]).length = Hm.length + 1 := by simp
+  rw [hl5, hl62, show pre.length + 5 + (Hm.length + 1) = pre.length + 6 + Hm.length by omega, hnext] at hrun
+  have hle : pre.length + 6 + Hm.length ≤ c.length := by
+    rw [hc]; simp [LOOPW]; omega
   obtain ⟨o', m', hn', _, hge, _, _⟩ := next_safe_total c _ hle
   rw [hnext] at hn'
   simp only [Except.ok.injEq, Prod.mk.injEq] at hn'
   obtain ⟨rfl, rfl⟩ := hn'
   have h1 : finderNext c (stAt stk acc (pre.length + 5) 7) = .ok (stAt stk acc o1 m1) :=
     finderNext_stAt c stk acc _ 7 _ _ hrun
-  -- the `>` of the header
-  have hgt : c[pre.length + 21 + S.length + V.length]? = some 62 := by
-    have := ht.h3 1 (by omega)
-    rw [show pre.length + 20 + S.length + V.length + 1 = pre.length + 21 + S.length + V.length by omega] at this
-    exact this
-  have hsk : skipW c o1 (· != W1.multiLineLastChar) (pre.length + 5) = .ok (pre.length + 21 + S.length + V.length) := by
-    have := skipW_run c o1 (· != W1.multiLineLastChar) (16 + S.length + V.length) (pre.length + 5)
-      (by
-        intro i hi
-        have hmid : ∀ x ∈ [32, 115, 101, 116, 61, 34] ++ (S ++ (LH2 ++ (V ++ [34]))), (x != W1.multiLineLastChar) = true := by
-          intro x hx
-          have h62 : W1.multiLineLastChar = 62 := by decide
-          simp only [h62, bne_iff_ne, ne_eq]
-          simp only [List.mem_append, LH2] at hx
-          rcases hx with h | h | h | h | h
-          · simp at h; rcases h with h | h | h | h | h | h <;> subst h <;> decide
-          · exact hSgt x h
-          · simp at h; rcases h with h | h | h | h | h | h | h | h | h <;> subst h <;> decide
-          · exact hVgt x h
-          · simp at h; subst h; decide
-        have hpl := all_at (fun x => (x != W1.multiLineLastChar) = true) (pre ++ [60, 108, 111, 111, 112])
-          ([32, 115, 101, 116, 61, 34] ++ (S ++ (LH2 ++ (V ++ [34])))) ([62] ++ rest) hmid i
-          (by simp [LH2]; omega)
-        rw [hl5] at hpl
-        have hc6 : c = (pre ++ [60, 108, 111, 111, 112]) ++
-            (([32, 115, 101, 116, 61, 34] ++ (S ++ (LH2 ++ (V ++ [34])))) ++ ([62] ++ rest)) := by
-          rw [hc]; simp [LH1, LH3, List.append_assoc]
-        rw [hc6]; exact hpl)
-      (by omega) (Or.inr ⟨62, by rw [show pre.length + 5 + (16 + S.length + V.length) = pre.length + 21 + S.length + V.length by omega]; exact hgt, by decide⟩)
-    rw [this]; congr 1; omega
-  have hpla := pla_print c pre.length S V ht hS34 hV34 (pre.length + 21 + S.length + V.length)
-    (trunc bits_LoopTag_Level stk.length) hS236 hV256
+  have hc6 : c = (pre ++ LOOPW) ++ (Hm ++ ([62] ++ rest)) := by rw [hc]; simp [List.append_assoc]
+  have hgt62 : c[pre.length + 5 + Hm.length]? = some 62 := by
+    have := get_after (pre ++ LOOPW) Hm 62 rest
+    rw [hl5] at this
+    rw [hc6]; exact this
+  have hsk : skipW c o1 (· != W1.multiLineLastChar) (pre.length + 5) = .ok (pre.length + 5 + Hm.length) := by
+    apply skipW_run c o1 (· != W1.multiLineLastChar) Hm.length (pre.length + 5)
+    · intro i hi
+      have hmid : ∀ x ∈ Hm, (x != W1.multiLineLastChar) = true := by
+        intro x hx
+        have h62 : W1.multiLineLastChar = 62 := by decide
+        simp only [h62, bne_iff_ne, ne_eq]
+        exact hgt x hx
+      have hpl := all_at (fun x => (x != W1.multiLineLastChar) = true) (pre ++ LOOPW) Hm ([62] ++ rest) hmid i hi
+      rw [hl5] at hpl
+      rw [hc6]; exact hpl
+    · omega
+    · right; exact ⟨62, hgt62, by decide⟩
   have hoff : (stAt stk acc (pre.length + 5) 7 : PState R).off = pre.length + 5 := rfl
   have hoff1 : (stAt stk acc o1 m1 : PState R).off = o1 := rfl
   have hch : (stAt stk acc o1 m1 : PState R).loopChain = [] := rfl
   have hstk : (stAt stk acc o1 m1 : PState R).stack = stk := rfl
-  have hsto : (stAt stk acc o1 m1 : PState R).storage = acc := rfl
   have h5 : W1.loopPrefixLength = 5 := by decide
-  have hco : trunc bits_LoopTag_ContentOffset (pre.length + 21 + S.length + V.length + W1.multiLineSuffixLength - pre.length) =
-      22 + S.length + V.length := by
+  have hco : trunc bits_LoopTag_ContentOffset (pre.length + 5 + Hm.length + W1.multiLineSuffixLength - pre.length) =
+      6 + Hm.length := by
     simp only [trunc, show bits_LoopTag_ContentOffset = 16 by decide, show W1.multiLineSuffixLength = 1 by decide]
     omega
   simp only [stepLoop, hoff, h1, bind, Except.bind, hoff1, h5, Nat.add_sub_cancel, hsk,
-    show pre.length + 21 + S.length + V.length < o1 by omega, if_true, hch, hstk,
-    hpla, hco]
+    show pre.length + 5 + Hm.length < o1 by omega, if_true, hch, hstk, hpla, hco]
   rfl
+
+/-- `parseLoopAttributes` on the printed attribute ` value="V"` of a top-level loop without `set` -/
+theorem pla_print0 (c : List Nat) (L : Nat) (V : List Nat)
+    (hh : ∀ i (hi : i < 8), c[L + 5 + i]? = [32, 118, 97, 108, 117, 101, 61, 34][i]?)
+    (hv : ∀ i (hi : i < V.length), c[L + 13 + i]? = some V[i])
+    (hq : c[L + 13 + V.length]? = some 34)
+    (hV : ∀ x ∈ V, x ≠ 34) (fuel lv : Nat) (hV8 : V.length < 256) :
+    parseLoopAttributes c (L + 14 + V.length) [] (fuel + 1) (L + 5) .none
+        ({ off := L, level := lv } : LoopFields) =
+      .ok { off := L, level := lv, valueOff := 13, valueLen := V.length } := by
+  have c5 : c[L + 5]? = some 32 := hh 0 (by omega)
+  have c6 : c[L + 6]? = some 118 := hh 1 (by omega)
+  have c7 : c[L + 7]? = some 97 := hh 2 (by omega)
+  have c8 : c[L + 8]? = some 108 := hh 3 (by omega)
+  have c9 : c[L + 9]? = some 117 := hh 4 (by omega)
+  have c10 : c[L + 10]? = some 101 := hh 5 (by omega)
+  have c11 : c[L + 11]? = some 61 := hh 6 (by omega)
+  have c12 : c[L + 12]? = some 34 := hh 7 (by omega)
+  have a1 : skipW c (L + 14 + V.length) (· == W1.spaceChar) (L + 5) = .ok (L + 6) := by
+    apply skipW_run c _ _ 1 (L + 5)
+    · intro i hi
+      have : i = 0 := by omega
+      subst this
+      exact ⟨32, c5, by decide⟩
+    · omega
+    · right; exact ⟨118, c6, by decide⟩
+  have b1 : andEqualAt (decide (L + 14 + V.length - (L + 6) > W1.valueLength)) c (L + 6) W1.valueStr = .ok true := by
+    have : decide (L + 14 + V.length - (L + 6) > W1.valueLength) = true := by
+      simp only [show W1.valueLength = 5 by decide, decide_eq_true_eq]; omega
+    simp only [andEqualAt, this, if_true]
+    apply isEqualAt_true
+    intro i hi
+    have hi5 : i < 5 := by simpa [show W1.valueStr = [118, 97, 108, 117, 101] by decide] using hi
+    have : i = 0 ∨ i = 1 ∨ i = 2 ∨ i = 3 ∨ i = 4 := by omega
+    rcases this with h | h | h | h | h <;> subst h
+    · rw [show L + 6 + 0 = L + 6 by omega, c6]; rfl
+    · rw [show L + 6 + 1 = L + 7 by omega, c7]; rfl
+    · rw [show L + 6 + 2 = L + 8 by omega, c8]; rfl
+    · rw [show L + 6 + 3 = L + 9 by omega, c9]; rfl
+    · rw [show L + 6 + 4 = L + 10 by omega, c10]; rfl
+  have c1 : skipW c (L + 14 + V.length) (· != W1.equalChar) (L + 6 + W1.valueLength) = .ok (L + 11) := by
+    rw [show W1.valueLength = 5 by decide]
+    exact skipW_run c _ _ 0 (L + 11) (by intro i hi; omega) (by omega) (Or.inr ⟨61, c11, by decide⟩)
+  have dd1 : doSkipW c (L + 14 + V.length) (· == W1.spaceChar) (L + 11) = .ok (L + 12) := by
+    exact skipW_run c _ _ 0 (L + 12) (by intro i hi; omega) (by omega) (Or.inr ⟨34, c12, by decide⟩)
+  have ee1 : doSkipW c (L + 14 + V.length) (· != 34) (L + 12) = .ok (L + 13 + V.length) := by
+    apply skipW_run c _ _ V.length (L + 13)
+    · intro i hi
+      refine ⟨V[i], hv i hi, ?_⟩
+      have := hV V[i] (List.getElem_mem hi)
+      simpa using this
+    · omega
+    · right; exact ⟨34, hq, by decide⟩
+  have hvo : trunc bits_LoopTag_ValueOffset (L + 12 + 1 - L) = 13 := by
+    simp only [trunc, show bits_LoopTag_ValueOffset = 8 by decide]; omega
+  have hvl : trunc bits_LoopTag_ValueLength (L + 13 + V.length - (L + 12 + 1)) = V.length := by
+    simp only [trunc, show bits_LoopTag_ValueLength = 8 by decide]; omega
+  simp only [parseLoopAttributes, a1, bind, Except.bind, show L + 6 < L + 14 + V.length by omega, if_true,
+    rd_some c (L + 6) 118 c6, show W1.setSortChar = 115 by decide, show W1.valueChar = 118 by decide,
+    show ¬ ((118 : Nat) = 115) by decide, if_false, b1, pure, Except.pure, c1, dd1,
+    show L + 12 < L + 14 + V.length by omega, rd_some c (L + 12) 34 c12, ee1, hvo, hvl,
+    show ¬ (L + 13 + V.length + 1 < L + 14 + V.length) by omega]
 
 /-! ### variables under the loop's chain -/
 
@@ -627,125 +663,120 @@ theorem stepLoopEnd_print (c : List Nat) (ref : LoopRef) (acc sub : List (Tag R)
   simp only [stepLoopEnd, stAtL, h7, Nat.add_sub_cancel, pure, Except.pure, bind, Except.bind,
     show ¬ (q < f.off + f.contentOff) by omega, if_false, finderNext, hnext, stAt]
 
-def printLoopT (segs0 : List Seg) (S V : List Nat) (body segs1 : List Seg) : List Nat :=
-  printSegs segs0 ++ (LH1 ++ (S ++ (LH2 ++ (V ++ (LH3 ++ (printSegs body ++ (LOOPEND ++ printSegs segs1)))))))
+/-! ### the whole parse, any header -/
 
-/-- the tags the document implies for `segs0 <loop set="S" value="V">body</loop> segs1` -/
-def tagsLoopT (cfg : ScanCfg R) (c : List Nat) (segs0 : List Seg) (S V : List Nat) (body segs1 : List Seg) :
-    List (Tag R) :=
+/-- segments, `<loop` ++ `Hm` ++ `>`, body, `</loop>`, segments -/
+def printLoopG (segs0 : List Seg) (Hm : List Nat) (body segs1 : List Seg) : List Nat :=
+  printSegs segs0 ++ (LOOPW ++ (Hm ++ ([62] ++ (printSegs body ++ (LOOPEND ++ printSegs segs1)))))
+
+def tagsLoopG (cfg : ScanCfg R) (c : List Nat) (segs0 : List Seg) (Hm : List Nat) (f0 : LoopFields) (V : List Nat)
+    (body segs1 : List Seg) : List (Tag R) :=
   tagsOf cfg c 0 segs0 ++
-    [.loop (tagsOfLB V 0 ((printSegs segs0).length + 22 + S.length + V.length) body)
-      { loopF (printSegs segs0).length 0 S V with
-        endOff := (printSegs segs0).length + 22 + S.length + V.length + (printSegs body).length }] ++
-    tagsOf cfg c ((printSegs segs0).length + 22 + S.length + V.length + (printSegs body).length + 7) segs1
+    (.loop (tagsOfLB V 0 ((printSegs segs0).length + 6 + Hm.length) body)
+      { f0 with contentOff := 6 + Hm.length,
+                endOff := (printSegs segs0).length + 6 + Hm.length + (printSegs body).length } ::
+    tagsOf cfg c ((printSegs segs0).length + 6 + Hm.length + (printSegs body).length + 7) segs1)
 
-theorem parse_loopT (cfg : ScanCfg R) (segs0 : List Seg) (S V : List Nat) (body segs1 : List Seg)
+theorem parse_loopG (cfg : ScanCfg R) (segs0 : List Seg) (Hm V : List Nat) (body segs1 : List Seg) (f0 : LoopFields)
     (h0 : ∀ s ∈ segs0, s.ok) (h1 : ∀ s ∈ segs1, s.ok) (hb : ∀ s ∈ body, s.okB)
-    (hS : plainL S) (hS34 : ∀ x ∈ S, x ≠ 34) (hV : plainL V) (hV34 : ∀ x ∈ V, x ≠ 34)
-    (hSgt : ∀ x ∈ S, x ≠ 62) (hVgt : ∀ x ∈ V, x ≠ 62) (hS236 : S.length < 236) (hV256 : V.length < 256)
-    (hn : (printLoopT segs0 S V body segs1).length + 16 < 4294967296) :
-    parse cfg (printLoopT segs0 S V body segs1) =
-      .ok (tagsLoopT cfg (printLoopT segs0 S V body segs1) segs0 S V body segs1) := by
-  generalize hcdef : printLoopT segs0 S V body segs1 = c at hn ⊢
-  have hc : c = printSegs segs0 ++ (LH1 ++ (S ++ (LH2 ++ (V ++ (LH3 ++ (printSegs body ++ (LOOPEND ++ printSegs segs1))))))) :=
+    (hHm : plainL Hm) (hgt : ∀ x ∈ Hm, x ≠ 62) (hlen : Hm.length + 6 < 65536) (hV : ∀ x ∈ V, x ≠ 125)
+    (hn : (printLoopG segs0 Hm body segs1).length + 16 < 4294967296)
+    (hpla : parseLoopAttributes (printLoopG segs0 Hm body segs1) ((printSegs segs0).length + 5 + Hm.length) []
+      ((printSegs segs0).length + 5 + Hm.length + 2) ((printSegs segs0).length + 5) .none
+      ({ off := (printSegs segs0).length, level := 0 } : LoopFields) = .ok f0)
+    (hoff0 : f0.off = (printSegs segs0).length) (hlv0 : f0.level = 0) (hvl0 : f0.valueLen = V.length)
+    (Bv Rv : List Nat) (hcv : printLoopG segs0 Hm body segs1 = Bv ++ (V ++ Rv))
+    (hBv : Bv.length = (printSegs segs0).length + f0.valueOff) :
+    parse cfg (printLoopG segs0 Hm body segs1) =
+      .ok (tagsLoopG cfg (printLoopG segs0 Hm body segs1) segs0 Hm f0 V body segs1) := by
+  generalize hcdef : printLoopG segs0 Hm body segs1 = c at hn hpla hcv ⊢
+  have hc : c = printSegs segs0 ++ (LOOPW ++ (Hm ++ ([62] ++ (printSegs body ++ (LOOPEND ++ printSegs segs1))))) :=
     hcdef.symm
-  -- positions
-  have hL1 : LH1.length = 11 := rfl
-  have hL2 : LH2.length = 9 := rfl
-  have hL3 : LH3.length = 2 := rfl
+  have hLW : LOOPW.length = 5 := rfl
   have hLE : LOOPEND.length = 7 := rfl
-  have hclen : c.length = (printSegs segs0).length + 22 + S.length + V.length + (printSegs body).length + 7 +
+  have hclen : c.length = (printSegs segs0).length + 6 + Hm.length + (printSegs body).length + 7 +
       (printSegs segs1).length := by
-    rw [hc]; simp only [List.length_append, hL1, hL2, hL3, hLE]; omega
+    rw [hc]; simp only [List.length_append, hLW, hLE, List.length_cons, List.length_nil]; omega
   obtain ⟨o, m, hnx, _⟩ := next_safe_total c 0 (Nat.zero_le _)
   have hst0 : finderNext c ({} : PState R) = .ok (stAt [] [] o m) := by
     simp [finderNext, hnx, bind, Except.bind, stAt]
-  -- `<loop`
-  have hc0 : c = ([] : List Nat) ++ (printSegs segs0 ++ (LH1 ++ (S ++ (LH2 ++ (V ++ (LH3 ++ (printSegs body ++ (LOOPEND ++ printSegs segs1)))))))) := by
+  have hc0 : c = ([] : List Nat) ++ (printSegs segs0 ++ (LOOPW ++ (Hm ++ ([62] ++ (printSegs body ++ (LOOPEND ++ printSegs segs1)))))) := by
     rw [hc]; rfl
-  have ht := loopText_of c (printSegs segs0) S V _ hc
-  have hloop : next c (printSegs segs0).length = .ok ((printSegs segs0).length + 5, 7) :=
-    next_at_loop c _ hn (ht.h1 0 (by omega)) (ht.h1 1 (by omega)) (ht.h1 2 (by omega)) (ht.h1 3 (by omega))
-      (ht.h1 4 (by omega))
-  -- after the header
-  obtain ⟨o2, m2, hn2, _⟩ := next_safe_total c ((printSegs segs0).length + 22 + S.length + V.length) (by omega)
-  -- `</loop>`
-  have hcq : c = (printSegs segs0 ++ (LH1 ++ (S ++ (LH2 ++ (V ++ (LH3 ++ printSegs body)))))) ++ (LOOPEND ++ printSegs segs1) := by
+  have gl := fun i (hi : i < 5) => get_mid (printSegs segs0) LOOPW (Hm ++ ([62] ++ (printSegs body ++ (LOOPEND ++ printSegs segs1)))) i
+    (by rw [hLW]; exact hi)
+  have hloop : next c (printSegs segs0).length = .ok ((printSegs segs0).length + 5, 7) := by
+    apply next_at_loop c _ hn
+    · rw [hc]; exact gl 0 (by omega)
+    · rw [hc]; exact gl 1 (by omega)
+    · rw [hc]; exact gl 2 (by omega)
+    · rw [hc]; exact gl 3 (by omega)
+    · rw [hc]; exact gl 4 (by omega)
+  obtain ⟨o2, m2, hn2, _⟩ := next_safe_total c ((printSegs segs0).length + 6 + Hm.length) (by omega)
+  have hcq : c = (printSegs segs0 ++ (LOOPW ++ (Hm ++ ([62] ++ printSegs body)))) ++ (LOOPEND ++ printSegs segs1) := by
     rw [hc]; simp [List.append_assoc]
-  have hlq : (printSegs segs0 ++ (LH1 ++ (S ++ (LH2 ++ (V ++ (LH3 ++ printSegs body)))))).length =
-      (printSegs segs0).length + 22 + S.length + V.length + (printSegs body).length := by
-    simp only [List.length_append, hL1, hL2, hL3]; omega
+  have hlq : (printSegs segs0 ++ (LOOPW ++ (Hm ++ ([62] ++ printSegs body)))).length =
+      (printSegs segs0).length + 6 + Hm.length + (printSegs body).length := by
+    simp only [List.length_append, hLW, List.length_cons, List.length_nil]; omega
   have gq : ∀ i (hi : i < 7),
-      c[(printSegs segs0).length + 22 + S.length + V.length + (printSegs body).length + i]? = LOOPEND[i]? := by
+      c[(printSegs segs0).length + 6 + Hm.length + (printSegs body).length + i]? = LOOPEND[i]? := by
     intro i hi
-    have := get_mid (printSegs segs0 ++ (LH1 ++ (S ++ (LH2 ++ (V ++ (LH3 ++ printSegs body)))))) LOOPEND
+    have := get_mid (printSegs segs0 ++ (LOOPW ++ (Hm ++ ([62] ++ printSegs body)))) LOOPEND
       (printSegs segs1) i (by rw [hLE]; exact hi)
     rw [hlq] at this
     rw [hcq]; exact this
-  have hend : next c ((printSegs segs0).length + 22 + S.length + V.length + (printSegs body).length) =
-      .ok ((printSegs segs0).length + 22 + S.length + V.length + (printSegs body).length + 7, 8) :=
+  have hend : next c ((printSegs segs0).length + 6 + Hm.length + (printSegs body).length) =
+      .ok ((printSegs segs0).length + 6 + Hm.length + (printSegs body).length + 7, 8) :=
     next_at_loopend c _ hn (gq 0 (by omega)) (gq 1 (by omega)) (gq 2 (by omega)) (gq 3 (by omega)) (gq 4 (by omega))
       (gq 5 (by omega)) (gq 6 (by omega))
   obtain ⟨o4, m4, hn4, _⟩ := next_safe_total c
-    ((printSegs segs0).length + 22 + S.length + V.length + (printSegs body).length + 7) (by omega)
+    ((printSegs segs0).length + 6 + Hm.length + (printSegs body).length + 7) (by omega)
   have hfinal : next c c.length = .ok (c.length, 0) :=
     next_plain_end c c.length (Nat.le_refl _) (by intro i h1 h2; omega)
   have hlv : trunc bits_LoopTag_Level ([] : List (Frame R)).length = 0 := by simp [trunc]
-  -- fuel
   have hN : nTags segs0 + nTags body + nTags segs1 + 2 ≤ c.length := by
     have a := nTags_le segs0
     have b := nTags_le body
     have d := nTags_le segs1
     omega
-  -- stage 1
   have hm1 := parseMain_segs cfg c hn [] _ segs0 [] []
     (2 * c.length + 4 - (nTags segs0 + nTags body + nTags segs1 + 2) + nTags segs1 + 1 + nTags body + 1)
     o m _ _ hc0 h0 (fun s _ => Seg.scanOk_all _ s) hnx (by simpa using hloop)
   simp only [List.nil_append, List.length_nil] at hm1
-  -- stage 2
-  have hs2 := stepLoop_print c (printSegs segs0) S V _ hc hn hS hS34 hV hV34 hSgt hVgt hS236 hV256
-    ([] : List (Frame R)) (tagsOf cfg c 0 segs0) o2 m2 hn2
-  rw [hlv] at hs2
-  simp only [loopRef] at hs2
+  have hs2 := stepLoop_gen c (printSegs segs0) Hm _ hc hn hHm hgt hlen
+    ([] : List (Frame R)) (tagsOf cfg c 0 segs0) f0 (by rw [hlv]; exact hpla) hoff0 o2 m2 hn2
+  have href : (⟨f0.off + f0.valueOff, f0.valueLen, f0.level⟩ : LoopRef) =
+      ⟨(printSegs segs0).length + f0.valueOff, V.length, 0⟩ := by rw [hoff0, hlv0, hvl0]
+  rw [href] at hs2
   have hd7 : step cfg c (stAt [] (tagsOf cfg c 0 segs0) ((printSegs segs0).length + 5) 7) =
       stepLoop c (stAt [] (tagsOf cfg c 0 segs0) ((printSegs segs0).length + 5) 7) := by
     simp only [step, stAt]; rfl
-  -- stage 3
-  have hcv : c = (printSegs segs0 ++ (LH1 ++ (S ++ LH2))) ++ (V ++ (LH3 ++ (printSegs body ++ (LOOPEND ++ printSegs segs1)))) := by
+  have hcb : c = (printSegs segs0 ++ (LOOPW ++ (Hm ++ [62]))) ++ (printSegs body ++ (LOOPEND ++ printSegs segs1)) := by
     rw [hc]; simp [List.append_assoc]
-  have hlv' : (printSegs segs0 ++ (LH1 ++ (S ++ LH2))).length = (printSegs segs0).length + (20 + S.length) := by
-    simp only [List.length_append, hL1, hL2]; omega
-  have hcb : c = (printSegs segs0 ++ (LH1 ++ (S ++ (LH2 ++ (V ++ LH3))))) ++ (printSegs body ++ (LOOPEND ++ printSegs segs1)) := by
-    rw [hc]; simp [List.append_assoc]
-  have hlb : (printSegs segs0 ++ (LH1 ++ (S ++ (LH2 ++ (V ++ LH3))))).length = (printSegs segs0).length + 22 + S.length + V.length := by
-    simp only [List.length_append, hL1, hL2, hL3]; omega
-  have hm3 := parseMain_body cfg c hn V _ _ 0 hcv (fun x hx => (hV x hx).2.2)
-    [.loop (tagsOf cfg c 0 segs0) (loopF (printSegs segs0).length 0 S V) []] (LOOPEND ++ printSegs segs1) body _ []
+  have hlb : (printSegs segs0 ++ (LOOPW ++ (Hm ++ [62]))).length = (printSegs segs0).length + 6 + Hm.length := by
+    simp only [List.length_append, hLW, List.length_cons, List.length_nil]; omega
+  have hm3 := parseMain_body cfg c hn V Bv Rv 0 hcv hV
+    [.loop (tagsOf cfg c 0 segs0) { f0 with contentOff := 6 + Hm.length } []] (LOOPEND ++ printSegs segs1) body _ []
     (2 * c.length + 4 - (nTags segs0 + nTags body + nTags segs1 + 2) + nTags segs1 + 1)
     o2 m2 _ _ hcb hb (by rw [hlb]; exact hn2) (by rw [hlb]; exact hend)
-  rw [hlv', hlb] at hm3
+  rw [hBv, hlb] at hm3
   simp only [List.nil_append] at hm3
-  -- stage 4
-  have hs4 := stepLoopEnd_print c (loopRef (printSegs segs0).length 0 S V) (tagsOf cfg c 0 segs0)
-    (tagsOfLB V 0 ((printSegs segs0).length + 22 + S.length + V.length) body)
-    (loopF (printSegs segs0).length 0 S V) [] _ o4 m4 (by simp [loopF]; omega) hn4
-  simp only [loopRef] at hs4
+  have hs4 := stepLoopEnd_print c ⟨(printSegs segs0).length + f0.valueOff, V.length, 0⟩ (tagsOf cfg c 0 segs0)
+    (tagsOfLB V 0 ((printSegs segs0).length + 6 + Hm.length) body)
+    { f0 with contentOff := 6 + Hm.length } [] _ o4 m4 (by simp [hoff0]; omega) hn4
   have hd8 : ∀ st : PState R, st.mtch = 8 → step cfg c st = stepLoopEnd c st := by
     intro st hst; simp only [step, hst]; first | done | rfl
-  -- stage 5
-  have hc5 : c = (printSegs segs0 ++ (LH1 ++ (S ++ (LH2 ++ (V ++ (LH3 ++ (printSegs body ++ LOOPEND))))))) ++ (printSegs segs1 ++ []) := by
+  have hc5 : c = (printSegs segs0 ++ (LOOPW ++ (Hm ++ ([62] ++ (printSegs body ++ LOOPEND))))) ++ (printSegs segs1 ++ []) := by
     rw [hc]; simp [List.append_assoc]
-  have hl5 : (printSegs segs0 ++ (LH1 ++ (S ++ (LH2 ++ (V ++ (LH3 ++ (printSegs body ++ LOOPEND))))))).length =
-      (printSegs segs0).length + 22 + S.length + V.length + (printSegs body).length + 7 := by
-    simp only [List.length_append, hL1, hL2, hL3, hLE]; omega
+  have hl5 : (printSegs segs0 ++ (LOOPW ++ (Hm ++ ([62] ++ (printSegs body ++ LOOPEND))))).length =
+      (printSegs segs0).length + 6 + Hm.length + (printSegs body).length + 7 := by
+    simp only [List.length_append, hLW, hLE, List.length_cons, List.length_nil]; omega
   have hm5 := parseMain_segs cfg c hn [] [] segs1 _
-    (tagsOf cfg c 0 segs0 ++ [.loop (tagsOfLB V 0 ((printSegs segs0).length + 22 + S.length + V.length) body)
-      { loopF (printSegs segs0).length 0 S V with
-        endOff := (printSegs segs0).length + 22 + S.length + V.length + (printSegs body).length }])
+    (tagsOf cfg c 0 segs0 ++ [.loop (tagsOfLB V 0 ((printSegs segs0).length + 6 + Hm.length) body)
+      { f0 with contentOff := 6 + Hm.length,
+                endOff := (printSegs segs0).length + 6 + Hm.length + (printSegs body).length }])
     (2 * c.length + 4 - (nTags segs0 + nTags body + nTags segs1 + 2)) o4 m4 c.length 0 hc5 h1
     (fun s _ => Seg.scanOk_all _ s) (by rw [hl5]; exact hn4) (by rw [hl5]; rw [← hclen]; exact hfinal)
   rw [hl5] at hm5
-  -- together
   have hlast : ∀ acc : List (Tag R), parseMain cfg c (2 * c.length + 4 - (nTags segs0 + nTags body + nTags segs1 + 2))
       (stAt [] acc c.length 0) = .ok (stAt [] acc c.length 0) := by
     intro acc
@@ -753,12 +784,12 @@ theorem parse_loopT (cfg : ScanCfg R) (segs0 : List Seg) (S V : List Nat) (body 
       (2 * c.length + 3 - (nTags segs0 + nTags body + nTags segs1 + 2)) + 1 by omega]
     simp [parseMain, stAt]
   have htotal : parseMain cfg c (2 * c.length + 4) (stAt [] [] o m) =
-      .ok (stAt [] (tagsLoopT cfg c segs0 S V body segs1) c.length 0) := by
+      .ok (stAt [] (tagsLoopG cfg c segs0 Hm f0 V body segs1) c.length 0) := by
     rw [show 2 * c.length + 4 = 2 * c.length + 4 - (nTags segs0 + nTags body + nTags segs1 + 2) + nTags segs1 + 1 +
       nTags body + 1 + nTags segs0 by omega, hm1,
       parseMain_step cfg c _ _ _ (by simp [stAt]) (hd7.trans hs2), hm3,
       parseMain_step cfg c _ _ _ (by simp [stAtL]) ((hd8 _ rfl).trans hs4), hm5, hlast]
-    rfl
+    simp [tagsLoopG, List.append_assoc]
   simp only [stAt] at hst0 htotal
   simp only [parse, hst0, bind, Except.bind, htotal, cleanup]
 
@@ -1144,134 +1175,61 @@ theorem loopIter_ents (cx : RCtx R) (sub : List (Tag R)) (f : LoopFields) (set :
       · rw [h3]; simp
 
 
-/-- the pairs the loop over the value of `S` runs over -/
-def loopEnts (cx : RCtx R) (S : List Nat) : List (List Nat × Doc) :=
-  match (resolve cx.root [] S).1 with
+/-- the pairs a loop over the collection `coll` runs over -/
+def entsO (coll : Option Doc) : List (List Nat × Doc) :=
+  match coll with
   | some d => entsOf d
   | none => []
 
-/-- rendering the `Loop` tag of the printed loop -/
-theorem renderLoop_print (cx : RCtx R) (hg : cx.guardIndexRead = true) (B txt S V : List Nat) (body : List Seg)
-    (post : List Nat)
-    (hc : cx.content = B ++ (txt ++ (LH1 ++ (S ++ (LH2 ++ (V ++ (LH3 ++ (printSegs body ++ (LOOPEND ++ post)))))))))
-    (hS : PathOk S) (hb : ∀ s ∈ body, s.okB) (hpb : ∀ s ∈ body, s.pathB V) (st : RState) (fuel : Nat)
-    (hf : (loopEnts cx S).length + nTags body + 3 ≤ fuel) :
+/-- rendering the `Loop` tag of a printed loop with any header -/
+theorem renderLoop_gen (cx : RCtx R) (hg : cx.guardIndexRead = true) (B txt Hm V : List Nat) (body : List Seg)
+    (post : List Nat) (f0 : LoopFields)
+    (hc : cx.content = B ++ (txt ++ (LOOPW ++ (Hm ++ ([62] ++ (printSegs body ++ (LOOPEND ++ post)))))))
+    (hoff0 : f0.off = (B ++ txt).length) (hlv0 : f0.level = 0) (hg0 : f0.groupLen = 0) (hop : f0.options = 0)
+    (coll : Option Doc)
+    (hset : ∀ st, (if f0.set.len ≠ 0 then getValue cx st f0.set else pure (some cx.root)) = .ok coll)
+    (hb : ∀ s ∈ body, s.okB) (hpb : ∀ s ∈ body, s.pathB V) (st : RState) (fuel : Nat)
+    (hf : (entsO coll).length + nTags body + 3 ≤ fuel) :
     ∃ st', renderTag cx fuel
-        (.loop (tagsOfLB V 0 ((B ++ txt).length + 22 + S.length + V.length) body)
-          { loopF (B ++ txt).length 0 S V with
-            endOff := (B ++ txt).length + 22 + S.length + V.length + (printSegs body).length }) B.length st =
-        .ok (st', (B ++ txt).length + 22 + S.length + V.length + (printSegs body).length + 7) ∧
-      st'.out = st.out ++ (txt ++ outEnts (fun x key => expSegsB cx [⟨V, x, key⟩] body) (loopEnts cx S)) := by
+        (.loop (tagsOfLB V 0 ((B ++ txt).length + 6 + Hm.length) body)
+          { f0 with contentOff := 6 + Hm.length,
+                    endOff := (B ++ txt).length + 6 + Hm.length + (printSegs body).length }) B.length st =
+        .ok (st', (B ++ txt).length + 6 + Hm.length + (printSegs body).length + 7) ∧
+      st'.out = st.out ++ (txt ++ outEnts (fun x key => expSegsB cx [⟨V, x, key⟩] body) (entsO coll)) := by
   obtain ⟨g, rfl⟩ : ∃ g, fuel = g + 1 := ⟨fuel - 1, by omega⟩
   have hsl : slice cx.content B.length (B ++ txt).length = .ok txt := by rw [hc]; exact slice_from B txt _
-  have hSl : 0 < S.length := by
-    obtain ⟨name, keys, rfl, hne, _, _⟩ := hS
-    have := List.length_pos_iff.mpr hne
-    simp; omega
-  have hA : (B ++ txt ++ LH1).length = (B ++ txt).length + 11 := by simp [LH1]; omega
-  have hgv : getValue cx (emit st txt) ⟨(B ++ txt).length + 11, S.length, 0, 0⟩ = .ok (resolve cx.root [] S).1 := by
-    rw [← hA]
-    exact getValue_path cx hg _ (B ++ txt ++ LH1) (LH2 ++ (V ++ (LH3 ++ (printSegs body ++ (LOOPEND ++ post))))) S
-      (by rw [hc]; simp [List.append_assoc]) hS
   have h7 : W1.loopSuffixLength = 7 := by decide
-  simp only [renderTag, loopF, hsl, bind, Except.bind, show S.length ≠ 0 by omega, ne_eq, not_false_eq_true, if_true,
-    hgv, h7]
-  cases hres : (resolve cx.root [] S).1 with
+  simp only [renderTag, hoff0, hsl, bind, Except.bind, hset, h7, hg0, hop, hlv0]
+  cases coll with
   | none =>
     refine ⟨emit st txt, rfl, ?_⟩
-    simp [emit, loopEnts, hres, outEnts]
+    simp [emit, entsO, outEnts]
   | some set0 =>
-    simp only [not_true_eq_false, if_false, pure, Except.pure, show ¬ ((0 : Nat) > 1) by omega]
-    -- the body for one item
-    have hcb : cx.content = (B ++ txt ++ LH1 ++ S ++ LH2 ++ V ++ LH3) ++ ([] ++ (printSegs body ++ (LOOPEND ++ post))) := by
+    simp only [not_true_eq_false, ne_eq, if_false, pure, Except.pure, show ¬ ((0 : Nat) > 1) by omega]
+    have hcb : cx.content = (B ++ txt ++ LOOPW ++ Hm ++ [62]) ++ ([] ++ (printSegs body ++ (LOOPEND ++ post))) := by
       rw [hc]; simp [List.append_assoc]
-    have hlb : (B ++ txt ++ LH1 ++ S ++ LH2 ++ V ++ LH3).length = (B ++ txt).length + 22 + S.length + V.length := by
-      simp [LH1, LH2, LH3]; omega
+    have hlb : (B ++ txt ++ LOOPW ++ Hm ++ [62]).length = (B ++ txt).length + 6 + Hm.length := by
+      simp [LOOPW]; omega
     have hbody : ∀ (x : Doc) (key : List Nat) (s1 : RState) (k : Nat), s1.items[(0 : Nat)]? = some ⟨some x, key⟩ → 1 ≤ k →
-        render cx (k + nTags body) (tagsOfLB V 0 ((B ++ txt).length + 22 + S.length + V.length) body)
-          ((B ++ txt).length + (22 + S.length + V.length))
-          ((B ++ txt).length + 22 + S.length + V.length + (printSegs body).length) s1 =
+        render cx (k + nTags body) (tagsOfLB V 0 ((B ++ txt).length + 6 + Hm.length) body)
+          ((B ++ txt).length + (6 + Hm.length))
+          ((B ++ txt).length + 6 + Hm.length + (printSegs body).length) s1 =
         .ok (emit s1 (expSegsB cx [⟨V, x, key⟩] body)) := by
       intro x key s1 k h1 hk
-      have := render_body_end cx hg V 0 x key (LOOPEND ++ post) body (B ++ txt ++ LH1 ++ S ++ LH2 ++ V ++ LH3) [] s1 k
+      have := render_body_end cx hg V 0 x key (LOOPEND ++ post) body (B ++ txt ++ LOOPW ++ Hm ++ [62]) [] s1 k
         hcb hb hpb h1 hk
       simp only [List.append_nil, hlb, List.nil_append] at this
-      rw [show (B ++ txt).length + (22 + S.length + V.length) = (B ++ txt).length + 22 + S.length + V.length by omega]
+      rw [show (B ++ txt).length + (6 + Hm.length) = (B ++ txt).length + 6 + Hm.length by omega]
       exact this
-    have hents : loopEnts cx S = entsOf set0 := by simp [loopEnts, hres]
-    obtain ⟨st', h1, h2, _⟩ := loopIter_ents cx (tagsOfLB V 0 ((B ++ txt).length + 22 + S.length + V.length) body)
-      { set := ⟨(B ++ txt).length + 11, S.length, 0, 0⟩, off := (B ++ txt).length,
-        endOff := (B ++ txt).length + 22 + S.length + V.length + (printSegs body).length,
-        contentOff := 22 + S.length + V.length, valueOff := 20 + S.length, valueLen := V.length, level := 0 }
+    obtain ⟨st', h1, h2, _⟩ := loopIter_ents cx (tagsOfLB V 0 ((B ++ txt).length + 6 + Hm.length) body)
+      { f0 with off := (B ++ txt).length, level := 0, groupLen := 0, options := 0, contentOff := 6 + Hm.length,
+                endOff := (B ++ txt).length + 6 + Hm.length + (printSegs body).length }
       set0 (fun x key => expSegsB cx [⟨V, x, key⟩] body) (nTags body) hbody (entsOf set0).length 0
       ⟨(emit st txt).out, (emit st txt).items ++ List.replicate (0 + 1 - (emit st txt).items.length) ({} : LoopItem)⟩
-      g (by omega) (by simp; omega) (by rw [← hents]; omega)
+      g (by omega) (by simp; omega) (by simp only [entsO] at hf; omega)
     refine ⟨st', ?_, ?_⟩
     · simp only [h1]
-    · rw [h2, hents]; simp [emit, List.append_assoc]
-
-
-/-- what the document says the loop prints -/
-def expLoop (cx : RCtx R) (S V : List Nat) (body : List Seg) : List Nat :=
-  outEnts (fun x key => expSegsB cx [⟨V, x, key⟩] body) (loopEnts cx S)
-
-theorem renderTop_loopT (cx : RCtx R) (cfg : ScanCfg R) (hg : cx.guardIndexRead = true)
-    (hrn : cfg.readNum = cx.readNum) (segs0 : List Seg) (S V : List Nat) (body segs1 : List Seg)
-    (hc : cx.content = printLoopT segs0 S V body segs1)
-    (h0 : ∀ s ∈ segs0, s.ok) (hp0 : ∀ s ∈ segs0, s.pathOk cfg.readNum)
-    (h1 : ∀ s ∈ segs1, s.ok) (hp1 : ∀ s ∈ segs1, s.pathOk cfg.readNum)
-    (hS : PathOk S) (hb : ∀ s ∈ body, s.okB) (hpb : ∀ s ∈ body, s.pathB V) (fuel : Nat) :
-    renderTop cx (tagsLoopT cfg cx.content segs0 S V body segs1)
-        ((loopEnts cx S).length + nTags body + nTags segs1 + 5 + fuel + nTags segs0) =
-      .ok (expSegs cx segs0 ++ (expLoop cx S V body ++ expSegs cx segs1)) := by
-  simp only [printLoopT] at hc
-  have hc0 : cx.content = ([] : List Nat) ++ ([] ++ (printSegs segs0 ++
-      (LH1 ++ (S ++ (LH2 ++ (V ++ (LH3 ++ (printSegs body ++ (LOOPEND ++ printSegs segs1))))))))) := by
-    rw [hc]; rfl
-  obtain ⟨B2, txt2, st2, e1, e2, e3, e4, e5⟩ := render_segs_more cx cfg hg hrn
-    (.loop (tagsOfLB V 0 ((printSegs segs0).length + 22 + S.length + V.length) body)
-      { loopF (printSegs segs0).length 0 S V with
-        endOff := (printSegs segs0).length + 22 + S.length + V.length + (printSegs body).length } ::
-      tagsOf cfg cx.content ((printSegs segs0).length + 22 + S.length + V.length + (printSegs body).length + 7) segs1)
-    cx.content.length _ segs0 [] [] {} ((loopEnts cx S).length + nTags body + nTags segs1 + 5 + fuel) hc0 hp0 h0 (by omega)
-  simp only [List.append_nil, List.length_nil, Nat.zero_add, List.nil_append] at e2 e3 e5
-  have hL : (B2 ++ txt2).length = (printSegs segs0).length := e2
-  -- the loop tag
-  obtain ⟨st3, r1, r2⟩ := renderLoop_print cx hg B2 txt2 S V body (printSegs segs1) e1 hS hb hpb st2
-    ((loopEnts cx S).length + nTags body + nTags segs1 + 4 + fuel) (by omega)
-  rw [hL] at r1
-  -- the segments after it
-  have hc5 : cx.content = (printSegs segs0 ++ (LH1 ++ (S ++ (LH2 ++ (V ++ (LH3 ++ (printSegs body ++ LOOPEND))))))) ++
-      ([] ++ (printSegs segs1 ++ [])) := by
-    rw [hc]; simp [List.append_assoc]
-  have hl5 : (printSegs segs0 ++ (LH1 ++ (S ++ (LH2 ++ (V ++ (LH3 ++ (printSegs body ++ LOOPEND))))))).length =
-      (printSegs segs0).length + 22 + S.length + V.length + (printSegs body).length + 7 := by
-    simp [LH1, LH2, LH3, LOOPEND]; omega
-  have hend := render_segs_end cx cfg hg hrn [] segs1 _ [] st3
-    ((loopEnts cx S).length + nTags body + 4 + fuel) hc5 hp1 h1 (by omega)
-  simp only [List.append_nil, hl5, List.nil_append] at hend
-  have hclen : cx.content.length = (printSegs segs0).length + 22 + S.length + V.length + (printSegs body).length + 7 +
-      (printSegs segs1).length := by
-    rw [hc]; simp [LH1, LH2, LH3, LOOPEND]; omega
-  rw [← hclen] at hend
-  have hfu : (loopEnts cx S).length + nTags body + nTags segs1 + 5 + fuel =
-      ((loopEnts cx S).length + nTags body + nTags segs1 + 4 + fuel) + 1 := by omega
-  have hfu2 : (loopEnts cx S).length + nTags body + nTags segs1 + 4 + fuel =
-      (loopEnts cx S).length + nTags body + 4 + fuel + nTags segs1 := by omega
-  have htl : tagsLoopT cfg cx.content segs0 S V body segs1 =
-      tagsOf cfg cx.content 0 segs0 ++
-        (.loop (tagsOfLB V 0 ((printSegs segs0).length + 22 + S.length + V.length) body)
-          { loopF (printSegs segs0).length 0 S V with
-            endOff := (printSegs segs0).length + 22 + S.length + V.length + (printSegs body).length } ::
-        tagsOf cfg cx.content ((printSegs segs0).length + 22 + S.length + V.length + (printSegs body).length + 7) segs1) := by
-    simp [tagsLoopT, List.append_assoc]
-  simp only [renderTop, htl, e5, bind, Except.bind]
-  rw [hfu]
-  simp only [render, r1, bind, Except.bind]
-  rw [hfu2, hend]
-  simp only [emit, r2]
-  rw [← List.append_assoc st2.out, e3]
-  simp [List.append_assoc, expLoop]
+    · rw [h2]; simp [emit, entsO, List.append_assoc]
 
 
 /-! ### the reference interpreter on the loop -/
@@ -1348,42 +1306,230 @@ theorem loopObj_ents (cx : RCtx R) (V : List Nat) (body : List Seg) :
 def loopTpl (segs0 : List Seg) (S V : List Nat) (body segs1 : List Seg) : List Tpl :=
   segsTpl segs0 ++ (.loop S V (segsTpl body) :: segsTpl segs1)
 
-theorem printLoopT_eq (segs0 : List Seg) (S V : List Nat) (body segs1 : List Seg) (hS : S ≠ []) :
-    printList (loopTpl segs0 S V body segs1) = printLoopT segs0 S V body segs1 := by
+/-! ### any header: render and reference -/
+
+theorem renderTop_loopG (cx : RCtx R) (cfg : ScanCfg R) (hg : cx.guardIndexRead = true)
+    (hrn : cfg.readNum = cx.readNum) (segs0 : List Seg) (Hm V : List Nat) (body segs1 : List Seg) (f0 : LoopFields)
+    (hc : cx.content = printLoopG segs0 Hm body segs1)
+    (h0 : ∀ s ∈ segs0, s.ok) (hp0 : ∀ s ∈ segs0, s.pathOk cfg.readNum)
+    (h1 : ∀ s ∈ segs1, s.ok) (hp1 : ∀ s ∈ segs1, s.pathOk cfg.readNum)
+    (hoff0 : f0.off = (printSegs segs0).length) (hlv0 : f0.level = 0) (hg0 : f0.groupLen = 0) (hop : f0.options = 0)
+    (coll : Option Doc)
+    (hset : ∀ st, (if f0.set.len ≠ 0 then getValue cx st f0.set else pure (some cx.root)) = .ok coll)
+    (hb : ∀ s ∈ body, s.okB) (hpb : ∀ s ∈ body, s.pathB V) (fuel : Nat) :
+    renderTop cx (tagsLoopG cfg cx.content segs0 Hm f0 V body segs1)
+        ((entsO coll).length + nTags body + nTags segs1 + 5 + fuel + nTags segs0) =
+      .ok (expSegs cx segs0 ++ (outEnts (fun x key => expSegsB cx [⟨V, x, key⟩] body) (entsO coll) ++
+        expSegs cx segs1)) := by
+  simp only [printLoopG] at hc
+  have hc0 : cx.content = ([] : List Nat) ++ ([] ++ (printSegs segs0 ++
+      (LOOPW ++ (Hm ++ ([62] ++ (printSegs body ++ (LOOPEND ++ printSegs segs1))))))) := by
+    rw [hc]; rfl
+  obtain ⟨B2, txt2, st2, e1, e2, e3, e4, e5⟩ := render_segs_more cx cfg hg hrn
+    (.loop (tagsOfLB V 0 ((printSegs segs0).length + 6 + Hm.length) body)
+      { f0 with contentOff := 6 + Hm.length,
+                endOff := (printSegs segs0).length + 6 + Hm.length + (printSegs body).length } ::
+      tagsOf cfg cx.content ((printSegs segs0).length + 6 + Hm.length + (printSegs body).length + 7) segs1)
+    cx.content.length _ segs0 [] [] {} ((entsO coll).length + nTags body + nTags segs1 + 5 + fuel) hc0 hp0 h0 (by omega)
+  simp only [List.append_nil, List.length_nil, Nat.zero_add, List.nil_append] at e2 e3 e5
+  have hL : (B2 ++ txt2).length = (printSegs segs0).length := e2
+  obtain ⟨st3, r1, r2⟩ := renderLoop_gen cx hg B2 txt2 Hm V body (printSegs segs1) f0 e1 (by rw [hL]; exact hoff0)
+    hlv0 hg0 hop coll hset hb hpb st2
+    ((entsO coll).length + nTags body + nTags segs1 + 4 + fuel) (by omega)
+  rw [hL] at r1
+  have hc5 : cx.content = (printSegs segs0 ++ (LOOPW ++ (Hm ++ ([62] ++ (printSegs body ++ LOOPEND))))) ++
+      ([] ++ (printSegs segs1 ++ [])) := by
+    rw [hc]; simp [List.append_assoc]
+  have hl5 : (printSegs segs0 ++ (LOOPW ++ (Hm ++ ([62] ++ (printSegs body ++ LOOPEND))))).length =
+      (printSegs segs0).length + 6 + Hm.length + (printSegs body).length + 7 := by
+    simp [LOOPW, LOOPEND]; omega
+  have hend := render_segs_end cx cfg hg hrn [] segs1 _ [] st3
+    ((entsO coll).length + nTags body + 4 + fuel) hc5 hp1 h1 (by omega)
+  simp only [List.append_nil, hl5, List.nil_append] at hend
+  have hclen : cx.content.length = (printSegs segs0).length + 6 + Hm.length + (printSegs body).length + 7 +
+      (printSegs segs1).length := by
+    rw [hc]; simp [LOOPW, LOOPEND]; omega
+  rw [← hclen] at hend
+  have hfu : (entsO coll).length + nTags body + nTags segs1 + 5 + fuel =
+      ((entsO coll).length + nTags body + nTags segs1 + 4 + fuel) + 1 := by omega
+  have hfu2 : (entsO coll).length + nTags body + nTags segs1 + 4 + fuel =
+      (entsO coll).length + nTags body + 4 + fuel + nTags segs1 := by omega
+  simp only [renderTop, tagsLoopG, e5, bind, Except.bind]
+  rw [hfu]
+  simp only [render, r1, bind, Except.bind]
+  rw [hfu2, hend]
+  simp only [emit, r2]
+  rw [← List.append_assoc st2.out, e3]
+  simp [List.append_assoc]
+
+/-- what `print` writes between `<loop` and `>` -/
+def hdrOf (S V : List Nat) : List Nat :=
+  (if S.isEmpty then [] else [32, 115, 101, 116, 61, 34] ++ S ++ [34]) ++ ([32, 118, 97, 108, 117, 101, 61, 34] ++ V ++ [34])
+
+theorem printLoopG_eq (segs0 : List Seg) (S V : List Nat) (body segs1 : List Seg) :
+    printList (loopTpl segs0 S V body segs1) = printLoopG segs0 (hdrOf S V) body segs1 := by
   have happ : ∀ (a b : List Tpl), printList (a ++ b) = printList a ++ printList b := by
     intro a b
     induction a with
     | nil => simp [printList]
     | cons t a ih => simp [printList, ih, List.append_assoc]
-  have hne : S.isEmpty = false := by cases S <;> simp_all
-  simp only [loopTpl, happ, printList, printTpl, printSegs_eq, printLoopT, hne, Bool.false_eq_true, if_false]
-  simp [str, LH1, LH2, LH3, LOOPEND, List.append_assoc]
+  simp only [loopTpl, happ, printList, printTpl, printSegs_eq, printLoopG, hdrOf]
+  cases S <;> simp [str, LOOPW, LOOPEND, List.append_assoc]
 
-theorem expand_loopT (cx : RCtx R) (segs0 : List Seg) (S V : List Nat) (body segs1 : List Seg) (hS : S ≠ [])
-    (fuel : Nat) :
-    expandList (specOf cx) (segs0.length + segs1.length + (loopEnts cx S).length + body.length + 4 + fuel) []
+/-- the collection a loop runs over: the value of `S`, the root without `set` -/
+def collOf (cx : RCtx R) (S : List Nat) : Option Doc :=
+  if S.isEmpty then some cx.root else (resolve cx.root [] S).1
+
+theorem expand_loopG (cx : RCtx R) (segs0 : List Seg) (S V : List Nat) (body segs1 : List Seg) (fuel : Nat) :
+    expandList (specOf cx) (segs0.length + segs1.length + (entsO (collOf cx S)).length + body.length + 4 + fuel) []
         (loopTpl segs0 S V body segs1) =
-      expSegs cx segs0 ++ (expLoop cx S V body ++ expSegs cx segs1) := by
-  have hne : S.isEmpty = false := by cases S <;> simp_all
+      expSegs cx segs0 ++ (outEnts (fun x key => expSegsB cx [⟨V, x, key⟩] body) (entsO (collOf cx S)) ++
+        expSegs cx segs1) := by
   rw [loopTpl, expandList_segs_app cx segs0 _ _ (by omega)]
   congr 1
-  rw [show segs0.length + segs1.length + (loopEnts cx S).length + body.length + 4 + fuel - segs0.length =
-    (segs1.length + (loopEnts cx S).length + body.length + 2 + fuel) + 1 + 1 by omega]
-  simp only [expandList, expandTpl, hne, Bool.false_eq_true, if_false, show (specOf cx).root = cx.root from rfl]
+  rw [show segs0.length + segs1.length + (entsO (collOf cx S)).length + body.length + 4 + fuel - segs0.length =
+    (segs1.length + (entsO (collOf cx S)).length + body.length + 2 + fuel) + 1 + 1 by omega]
+  simp only [expandList, expandTpl, show (specOf cx).root = cx.root from rfl]
   rw [expandList_segs cx (specOf cx) ⟨rfl, rfl, rfl, rfl, rfl, rfl⟩ segs1 _ (by omega)]
   congr 1
-  simp only [expLoop, loopEnts]
-  cases hres : (resolve cx.root [] S).1 with
-  | none => simp [outEnts]
+  have hcoll : (if S.isEmpty = true then some cx.root else (resolve cx.root [] S).1) = collOf cx S := rfl
+  rw [hcoll]
+  cases hres : collOf cx S with
+  | none => simp [entsO, outEnts]
   | some d =>
     cases d with
     | arr xs =>
-      simp only [entsOf]
+      simp only [entsO, entsOf]
       exact loopArr_ents cx V body xs _ (by first | omega | (simp; omega))
     | obj ms =>
-      simp only [entsOf]
+      simp only [entsO, entsOf]
       exact loopObj_ents cx V body ms _ (by first | omega | (simp; omega))
-    | _ => simp [entsOf, outEnts]
+    | _ => simp [entsO, entsOf, outEnts]
+
+
+theorem plainL_hdr (S V : List Nat) (hS : plainL S) (hV : plainL V) : plainL (hdrOf S V) := by
+  have hp1 : plainL [32, 115, 101, 116, 61, 34] := by
+    intro x hx; simp at hx; rcases hx with h | h | h | h | h | h <;> subst h <;> (unfold plainU; decide)
+  have hp2 : plainL [32, 118, 97, 108, 117, 101, 61, 34] := by
+    intro x hx; simp at hx; rcases hx with h | h | h | h | h | h | h | h <;> subst h <;> (unfold plainU; decide)
+  have hp3 : plainL [34] := by intro x hx; simp at hx; subst hx; unfold plainU; decide
+  have hv := plainL_append (plainL_append hp2 hV) hp3
+  unfold hdrOf
+  split
+  · exact plainL_append (by intro x hx; cases hx) hv
+  · exact plainL_append (plainL_append (plainL_append hp1 hS) hp3) hv
+
+theorem nogt_hdr (S V : List Nat) (hS : ∀ x ∈ S, x ≠ 62) (hV : ∀ x ∈ V, x ≠ 62) : ∀ x ∈ hdrOf S V, x ≠ 62 := by
+  intro x hx
+  unfold hdrOf at hx
+  simp only [List.mem_append] at hx
+  rcases hx with h | h
+  · split at h
+    · cases h
+    · simp only [List.mem_append] at h
+      rcases h with (h | h) | h
+      · simp at h; rcases h with h | h | h | h | h | h <;> subst h <;> decide
+      · exact hS x h
+      · simp at h; subst h; decide
+  · rcases h with (h | h) | h
+    · simp at h; rcases h with h | h | h | h | h | h | h | h <;> subst h <;> decide
+    · exact hV x h
+    · simp at h; subst h; decide
+
+/-- the main equation for one top-level loop between segment runs (reference run with the renderer's parameters) -/
+theorem loop_partial (cx : RCtx R) (cfg : ScanCfg R) (segs0 : List Seg) (S V : List Nat) (body segs1 : List Seg)
+    (hg : cx.guardIndexRead = true) (hrn : cfg.readNum = cx.readNum)
+    (hc : cx.content = printList (loopTpl segs0 S V body segs1))
+    (h0 : ∀ s ∈ segs0, s.ok) (hp0 : ∀ s ∈ segs0, s.pathOk cfg.readNum)
+    (h1 : ∀ s ∈ segs1, s.ok) (hp1 : ∀ s ∈ segs1, s.pathOk cfg.readNum)
+    (hb : ∀ s ∈ body, s.okB) (hpb : ∀ s ∈ body, s.pathB V)
+    (hS : plainL S) (hS34 : ∀ x ∈ S, x ≠ 34) (hSgt : ∀ x ∈ S, x ≠ 62) (hSp : S ≠ [] → PathOk S) (hS236 : S.length < 236)
+    (hV : plainL V) (hV34 : ∀ x ∈ V, x ≠ 34) (hVgt : ∀ x ∈ V, x ≠ 62) (hV256 : V.length < 256)
+    (hn : cx.content.length + 16 < 4294967296) (fuel fuel' : Nat) :
+    (parse cfg cx.content).bind (fun tags => renderTop cx tags
+        ((entsO (collOf cx S)).length + nTags body + nTags segs1 + 5 + fuel + nTags segs0)) =
+      .ok (expandList (specOf cx)
+        (segs0.length + segs1.length + (entsO (collOf cx S)).length + body.length + 4 + fuel') []
+        (loopTpl segs0 S V body segs1)) := by
+  rw [printLoopG_eq] at hc
+  have hn' := hn
+  rw [hc] at hn'
+  have hHm := plainL_hdr S V hS hV
+  have hgt := nogt_hdr S V hSgt hVgt
+  have hV125 : ∀ x ∈ V, x ≠ 125 := fun x hx => (hV x hx).2.2
+  rw [expand_loopG cx segs0 S V body segs1 fuel']
+  by_cases hSe : S = []
+  · -- no `set`
+    subst hSe
+    have hhd : hdrOf [] V = [32, 118, 97, 108, 117, 101, 61, 34] ++ V ++ [34] := by simp [hdrOf]
+    have hlen : (hdrOf [] V).length = 9 + V.length := by rw [hhd]; simp; omega
+    have hcl : printLoopG segs0 (hdrOf [] V) body segs1 =
+        (printSegs segs0 ++ LOOPW) ++ ([32, 118, 97, 108, 117, 101, 61, 34] ++ (V ++ ([34] ++ ([62] ++
+          (printSegs body ++ (LOOPEND ++ printSegs segs1)))))) := by
+      simp [printLoopG, hhd, List.append_assoc]
+    have hl5 : (printSegs segs0 ++ LOOPW).length = (printSegs segs0).length + 5 := by simp [LOOPW]
+    have hl13 : (printSegs segs0 ++ LOOPW ++ [32, 118, 97, 108, 117, 101, 61, 34]).length = (printSegs segs0).length + 13 := by
+      simp [LOOPW]
+    have hpla := pla_print0 (printLoopG segs0 (hdrOf [] V) body segs1) (printSegs segs0).length V
+      (by
+        intro i hi
+        have := get_mid (printSegs segs0 ++ LOOPW) [32, 118, 97, 108, 117, 101, 61, 34]
+          (V ++ ([34] ++ ([62] ++ (printSegs body ++ (LOOPEND ++ printSegs segs1))))) i (by simpa using hi)
+        rw [hl5] at this
+        rw [hcl]; exact this)
+      (by
+        intro i hi
+        have := get_at (printSegs segs0 ++ LOOPW ++ [32, 118, 97, 108, 117, 101, 61, 34]) V
+          ([34] ++ ([62] ++ (printSegs body ++ (LOOPEND ++ printSegs segs1)))) i hi
+        rw [hl13] at this
+        rw [hcl, ← this]; simp [List.append_assoc])
+      (by
+        have := get_after (printSegs segs0 ++ LOOPW ++ [32, 118, 97, 108, 117, 101, 61, 34]) V 34
+          ([62] ++ (printSegs body ++ (LOOPEND ++ printSegs segs1)))
+        rw [hl13] at this
+        rw [hcl, ← this]; simp [List.append_assoc])
+      hV34 ((printSegs segs0).length + 5 + (hdrOf [] V).length + 1) 0 hV256
+    rw [show (printSegs segs0).length + 14 + V.length = (printSegs segs0).length + 5 + (hdrOf [] V).length by rw [hlen]; omega] at hpla
+    have hp := parse_loopG cfg segs0 (hdrOf [] V) V body segs1 _ h0 h1 hb hHm hgt (by rw [hlen]; omega) hV125 hn' hpla
+      rfl rfl rfl (printSegs segs0 ++ LOOPW ++ [32, 118, 97, 108, 117, 101, 61, 34])
+      ([34] ++ ([62] ++ (printSegs body ++ (LOOPEND ++ printSegs segs1))))
+      (by rw [hcl]; simp [List.append_assoc]) hl13
+    rw [← hc] at hp
+    rw [hp]
+    simp only [Except.bind]
+    exact renderTop_loopG cx cfg hg hrn segs0 (hdrOf [] V) V body segs1 _ hc h0 hp0 h1 hp1 rfl rfl rfl rfl
+      (collOf cx []) (by intro st; simp [collOf, pure, Except.pure]) hb hpb fuel
+  · -- `set="S"`
+    have hSpo := hSp hSe
+    have hSi : S.isEmpty = false := by cases S <;> simp_all
+    have hhd : hdrOf S V = [32, 115, 101, 116, 61, 34] ++ S ++ [34] ++ ([32, 118, 97, 108, 117, 101, 61, 34] ++ V ++ [34]) := by
+      simp [hdrOf, hSi]
+    have hlen : (hdrOf S V).length = 16 + S.length + V.length := by rw [hhd]; simp; omega
+    have hcl : printLoopG segs0 (hdrOf S V) body segs1 =
+        printSegs segs0 ++ (LH1 ++ (S ++ (LH2 ++ (V ++ (LH3 ++ (printSegs body ++ (LOOPEND ++ printSegs segs1))))))) := by
+      simp [printLoopG, hhd, LH1, LH2, LH3, LOOPW, List.append_assoc]
+    have ht := loopText_of _ (printSegs segs0) S V _ hcl
+    have hpla := pla_print (printLoopG segs0 (hdrOf S V) body segs1) (printSegs segs0).length S V ht hS34 hV34
+      ((printSegs segs0).length + 5 + (hdrOf S V).length) 0 hS236 hV256
+    rw [show (printSegs segs0).length + 21 + S.length + V.length = (printSegs segs0).length + 5 + (hdrOf S V).length by
+      rw [hlen]; omega] at hpla
+    have hp := parse_loopG cfg segs0 (hdrOf S V) V body segs1 _ h0 h1 hb hHm hgt (by rw [hlen]; omega) hV125 hn' hpla
+      rfl rfl rfl (printSegs segs0 ++ (LH1 ++ (S ++ LH2)))
+      (LH3 ++ (printSegs body ++ (LOOPEND ++ printSegs segs1)))
+      (by rw [hcl]; simp [List.append_assoc]) (by simp [LH1, LH2]; omega)
+    rw [← hc] at hp
+    rw [hp]
+    simp only [Except.bind]
+    have hA : (printSegs segs0 ++ LH1).length = (printSegs segs0).length + 11 := by simp [LH1]
+    have hgv : ∀ st, getValue cx st ⟨(printSegs segs0).length + 11, S.length, 0, 0⟩ = .ok (resolve cx.root [] S).1 := by
+      intro st
+      rw [← hA]
+      exact getValue_path cx hg st (printSegs segs0 ++ LH1) (LH2 ++ (V ++ (LH3 ++ (printSegs body ++ (LOOPEND ++ printSegs segs1))))) S
+        (by rw [hc, hcl]; simp [List.append_assoc]) hSpo
+    have hSl : S.length ≠ 0 := by cases S <;> simp_all
+    exact renderTop_loopG cx cfg hg hrn segs0 (hdrOf S V) V body segs1 _ hc h0 hp0 h1 hp1 rfl rfl rfl rfl
+      (collOf cx S) (by intro st; simp only [hSl, ne_eq, not_false_eq_true, if_true, hgv, collOf, hSi, Bool.false_eq_true, if_false])
+      hb hpb fuel
 
 
 end
